@@ -101,6 +101,7 @@ SAFE_BUILTINS: dict[str, Callable] = {
     "enumerate": lambda x, start=0: list(enumerate(x, start)), "zip": lambda *a, strict=False: list(zip(*a, strict=strict)), "sum": sum,
     "repeat": lambda x, n: [x] * n,  # itertools.repeat with a count
     "chain": _chain,  # itertools.chain (and chain.from_iterable)
+    "nullcontext": lambda value=None: NullCtx(value),  # contextlib.nullcontext
 }
 STR_METHODS = {"lower", "upper", "startswith", "endswith", "casefold", "isalpha", "swapcase", "isascii", "isdigit", "isalnum", "isupper", "islower", "strip", "lstrip", "rstrip", "split", "replace", "find", "rfind", "count", "index", "splitlines", "rsplit", "join", "encode", "isspace", "title", "zfill", "ljust", "rjust", "center", "partition", "rpartition", "expandtabs", "format"}
 LIST_METHODS = {"append", "extend", "pop", "sort", "clear", "insert", "index", "copy", "reverse", "count", "remove"}
@@ -154,7 +155,43 @@ class Ev:
             if m is not None:
                 return m(v) != 0
             return True
+        if isinstance(v, Sym) and "." in v.name and hasattr(self.methods, "enum_truth"):
+            return self.methods.enum_truth(v.name)  # a plain Enum member is true whatever its value; an IntEnum's is its value's
         return bool(v)
+
+    def callable_value(self, node: ast.expr, ctx: ast.AST) -> Callable:
+        """A callable passed as a value (``key=len``, ``key=lambda v: ...``, ``key=helper``): a pure built-in, a
+        one-argument lambda, or whatever the expression evaluates to on the model."""
+        if isinstance(node, ast.Name) and node.id not in self.env and node.id in SAFE_BUILTINS:
+            g = SAFE_BUILTINS[node.id]
+
+            def call_builtin(x: Any, g: Callable = g) -> Any:
+                if isinstance(x, Obj):
+                    raise self.bad(ctx, "a built-in applied to a model object as a key function")
+                return g(x)
+
+            return call_builtin
+        if isinstance(node, ast.Lambda):
+            if len(node.args.args) != 1:
+                raise self.bad(ctx, "a key function must take one argument")
+            pname = node.args.args[0].arg
+
+            def call_lambda(x: Any) -> Any:
+                saved = self.env.get(pname, _MISSING)
+                self.env[pname] = x
+                try:
+                    return self.ev(node.body)
+                finally:
+                    if saved is _MISSING:
+                        del self.env[pname]
+                    else:
+                        self.env[pname] = saved
+
+            return call_lambda
+        v = self.ev(node)
+        if not callable(v):
+            raise self.bad(ctx, "a key function that is not callable on the model")
+        return v
 
     def to_str(self, v: Any) -> str:
         if isinstance(v, Obj):
@@ -317,6 +354,10 @@ class Ev:
                 return not self.truth(v)
             if isinstance(n.op, ast.USub):
                 return -v
+            if isinstance(n.op, ast.UAdd) and isinstance(v, (int, float)):
+                return +v
+            if isinstance(n.op, ast.Invert) and isinstance(v, int):  # masks: `modifier & ~SILENT`
+                return ~v
             raise self.bad(n)
         if isinstance(n, ast.BinOp):
             f = BIN.get(type(n.op))
@@ -489,7 +530,10 @@ class Ev:
                 for k in n.keywords:
                     if k.arg == "key":
                         lam = k.value
-                        if not isinstance(lam, ast.Lambda) or len(lam.args.args) != 1:
+                        if not isinstance(lam, ast.Lambda):  # key=len, key=str.lower, key=a_function
+                            kw["key"] = self.callable_value(lam, n)
+                            continue
+                        if len(lam.args.args) != 1:
                             raise self.bad(n, "key= must be a one-argument lambda")
                         pname = lam.args.args[0].arg
 
@@ -530,6 +574,19 @@ class Ev:
         if isinstance(f, ast.Attribute):
             recv = self.ev(f.value)
             args = self.args_of(n)
+            if isinstance(recv, list) and f.attr == "sort" and n.keywords:  # lst.sort(key=..., reverse=...)
+                skw: dict = {}
+                for k in n.keywords:
+                    if k.arg == "key":
+                        skw["key"] = self.callable_value(k.value, n)
+                    elif k.arg == "reverse":
+                        skw["reverse"] = bool(self.ev(k.value))
+                    else:
+                        raise self.bad(n, "sort with an unknown keyword")
+                try:
+                    return recv.sort(**skw)
+                except TypeError as err:
+                    raise _ModelRaise("TypeError") from err
             kwargs = {k.arg: self.ev(k.value) for k in n.keywords if k.arg}
             if isinstance(recv, _Super):
                 m = self.methods.get_after(recv.owner, recv.obj, f.attr) if hasattr(self.methods, "get_after") else None
@@ -567,8 +624,6 @@ class Ev:
             if isinstance(recv, str) and f.attr in STR_METHODS:
                 return getattr(recv, f.attr)(*args)
             if isinstance(recv, list) and f.attr in LIST_METHODS:
-                if f.attr == "sort" and n.keywords:
-                    raise self.bad(n, "sort with keywords")
                 try:
                     return getattr(recv, f.attr)(*args)
                 except (IndexError, ValueError) as err:
@@ -981,6 +1036,19 @@ class CtxManager:
 
     def exit(self) -> None:
         self.ev.run(self.post)
+
+
+class NullCtx(CtxManager):
+    """contextlib.nullcontext(value): entering returns the value, leaving does nothing."""
+
+    def __init__(self, value: Any = None):
+        self.value = value
+
+    def enter(self) -> Any:
+        return self.value
+
+    def exit(self) -> None:
+        return None
 
 
 class _Super:
